@@ -97,6 +97,12 @@ def gen(rnd, tier):
             pc = paste_case(rnd, [("runes", [120])], payload, [("ctl", 13, False)], sizes, "one-character")
             if pc:
                 cases.append(pc)
+    # pastes much longer than anything else the reader ever holds back (17 and 36 read buffers)
+    for ln in ((4200, 9000) if tier == "quick" else (4090, 4200, 5000, 9000, 20000)):
+        for sizes in ([256], [100], [255, 7]):
+            pc = paste_case(rnd, [("runes", [120])], D.gen_payload(rnd, ln), [("ctl", 13, False), ("key", 0, False)], sizes, "huge")
+            if pc:
+                cases.append(pc)
     # pastes read in one piece among neighbours (incl. two pastes in one read)
     for _ in range(120 if tier == "quick" else 2000):
         evs = D.gen_stream(rnd, rnd.choice([2, 3, 5]))
